@@ -16,14 +16,18 @@ def build_time(spec):
         t = np.concatenate([[0.0], spec["t0"] * spec["ratio"] ** np.arange(spec["n"] - 1)])
     elif kind == "steps":  # explicit increments (random log-uniform, very large, zero steps)
         t = np.concatenate([[0.0], np.cumsum(spec["steps"])])
+    elif kind == "intdays":  # whole-number times held in an integer array (np.arange(0, n) days), a legitimate grid
+        return np.arange(spec["n"], dtype=np.int64) * int(spec["step"]) + int(spec.get("start", 0))
     else:
         raise ValueError(kind)
     return np.asarray(t, float) + float(spec.get("start", 0.0))
 
 
 @st.composite
-def time_spec(draw, max_steps=200, kinds=("uniform", "quadratic", "geometric", "random", "big", "repeat")):
+def time_spec(draw, max_steps=200, kinds=("uniform", "quadratic", "geometric", "random", "big", "repeat", "intdays")):
     kind = draw(st.sampled_from(list(kinds)))
+    if kind == "intdays":
+        return {"kind": "intdays", "n": draw(st.integers(3, min(max_steps + 1, 150))), "step": draw(st.sampled_from([1, 1, 2, 30])), "start": draw(st.sampled_from([0, 0, 5])), "label": "intdays"}
     start = draw(st.sampled_from([0.0, 0.0, 0.0, 1.0, 0.37]))
     if kind in ("uniform", "quadratic"):
         return {"kind": kind, "n": draw(st.integers(3, max_steps + 1)), "T": draw(st.one_of(st.floats(0.01, 10.0), st.floats(10.0, 1e4))), "start": start}
